@@ -14,6 +14,8 @@ import (
 	"go/types"
 	"sort"
 	"strings"
+
+	"golang.org/x/tools/go/packages"
 )
 
 // ---------------------------------------------------------------- values
@@ -296,6 +298,9 @@ func (in *Interp) readPath(st *State, p string, t types.Type) Val {
 	if v, ok := st.fields[p]; ok {
 		return v
 	}
+	if src, ok := copySource(st, p); ok {
+		return in.readPath(st, src, t)
+	}
 	root := p
 	if i := strings.Index(p, "."); i >= 0 {
 		root = p[:i]
@@ -351,6 +356,23 @@ func (in *Interp) readPath(st *State, p string, t types.Type) Val {
 		return ObjV{Path: p, Type: t}
 	}
 	return UnkV{p}
+}
+
+// copySource redirects a path below a struct that was copied from another
+// object (and not overwritten since) to the source of the copy.
+func copySource(st *State, p string) (string, bool) {
+	for i := len(p) - 1; i > 0; i-- {
+		if p[i] != '.' {
+			continue
+		}
+		pre := p[:i]
+		if v, ok := st.fields["copyof:"+pre]; ok {
+			if ov, ok := v.(ObjV); ok && ov.Path != pre {
+				return ov.Path + p[i:], true
+			}
+		}
+	}
+	return "", false
 }
 
 // selPath evaluates a field selector to (canonical path, type). Promoted
@@ -503,16 +525,26 @@ func (in *Interp) cond(st *State, e ast.Expr) string {
 	case *ast.BinaryExpr:
 		switch x.Op {
 		case token.LAND:
-			return "(" + in.cond(st, x.X) + " && " + in.cond(st, x.Y) + ")"
+			// A && B  ==  !(!A || !B): one canonical connective, operands sorted
+			return negCond(orCond(negCond(in.cond(st, x.X)), negCond(in.cond(st, x.Y))))
 		case token.LOR:
-			return "(" + in.cond(st, x.X) + " || " + in.cond(st, x.Y) + ")"
+			return orCond(in.cond(st, x.X), in.cond(st, x.Y))
 		case token.EQL, token.NEQ, token.LSS, token.LEQ, token.GTR, token.GEQ:
 			l, r := in.operand(st, x.X), in.operand(st, x.Y)
-			op := x.Op.String()
-			if r == "nil" && (x.Op == token.EQL || x.Op == token.NEQ) {
-				return l + op + "nil"
+			switch x.Op {
+			case token.EQL:
+				return eqCond(l, r)
+			case token.NEQ:
+				return negCond(eqCond(l, r))
+			case token.LSS:
+				return l + "<" + r
+			case token.GEQ:
+				return negCond(l + "<" + r)
+			case token.GTR:
+				return r + "<" + l
+			case token.LEQ:
+				return negCond(r + "<" + l)
 			}
-			return l + op + r
 		}
 	}
 	if v, ok := in.eval(st, e).(BoolV); ok {
@@ -548,6 +580,83 @@ func (in *Interp) operand(st *State, e ast.Expr) string {
 		}
 	}
 	return in.render(st, e)
+}
+
+// eqCond orders the operands of == canonically (constants and nil last).
+func eqCond(l, r string) string {
+	if l == "nil" || isNumeric(l) && !isNumeric(r) {
+		l, r = r, l
+	} else if !isNumeric(r) && r != "nil" && r < l {
+		l, r = r, l
+	}
+	return l + "==" + r
+}
+
+func isNumeric(s string) bool {
+	if s == "" {
+		return false
+	}
+	for i := 0; i < len(s); i++ {
+		if (s[i] < '0' || s[i] > '9') && !(i == 0 && s[i] == '-') {
+			return false
+		}
+	}
+	return true
+}
+
+// orCond builds a canonical disjunction: flattened, sorted, duplicate-free.
+func orCond(a, b string) string {
+	parts := append(splitOr(a), splitOr(b)...)
+	sort.Strings(parts)
+	var out []string
+	for i, p := range parts {
+		if i > 0 && p == parts[i-1] {
+			continue
+		}
+		if p == "true" {
+			return "true"
+		}
+		if p == "false" {
+			continue
+		}
+		out = append(out, p)
+	}
+	if len(out) == 0 {
+		return "false"
+	}
+	if len(out) == 1 {
+		return out[0]
+	}
+	return "(" + strings.Join(out, " || ") + ")"
+}
+
+func splitOr(c string) []string {
+	if !strings.HasPrefix(c, "(") || !strings.HasSuffix(c, ")") {
+		return []string{c}
+	}
+	inner := c[1 : len(c)-1]
+	var parts []string
+	depth, start := 0, 0
+	for i := 0; i < len(inner); i++ {
+		switch inner[i] {
+		case '(':
+			depth++
+		case ')':
+			depth--
+			if depth < 0 {
+				return []string{c}
+			}
+		case ' ':
+			if depth == 0 && strings.HasPrefix(inner[i:], " || ") {
+				parts = append(parts, inner[start:i])
+				start = i + 4
+			}
+		}
+	}
+	if depth != 0 || len(parts) == 0 {
+		return []string{c}
+	}
+	return append(parts, inner[start:])
 }
 
 func negCond(c string) string {
@@ -738,7 +847,44 @@ func (in *Interp) globalVal(st *State, v *types.Var) Val {
 	if val, ok := st.fields[name]; ok {
 		return val
 	}
+	// function-typed package variables: interpret the initialiser (the rules
+	// that rely on it check separately that the variable is never reassigned)
+	if _, isFunc := v.Type().Underlying().(*types.Signature); isFunc && in.depth < maxInline {
+		if init, pkg := in.w.globalInit(v); init != nil {
+			sub := &Interp{w: in.w, fi: &FuncInfo{Key: "init:" + name, Pkg: pkg, Decl: &ast.FuncDecl{Type: &ast.FuncType{Params: &ast.FieldList{}}}}, info: pkg.TypesInfo, depth: in.depth + 1, parent: in, shared: in.shared}
+			val := sub.eval(st, init)
+			if _, ok := val.(ClosV); ok {
+				return val
+			}
+		}
+	}
 	return in.symbolic(st, name, v.Type())
+}
+
+// globalInit finds the initialiser expression of a package-level variable.
+func (w *World) globalInit(v *types.Var) (ast.Expr, *packages.Package) {
+	for _, p := range w.Mod {
+		if p.Types != v.Pkg() {
+			continue
+		}
+		for _, f := range p.Syntax {
+			for _, d := range f.Decls {
+				gd, ok := d.(*ast.GenDecl)
+				if !ok || gd.Tok != token.VAR {
+					continue
+				}
+				for _, sp := range gd.Specs {
+					vs := sp.(*ast.ValueSpec)
+					for i, nm := range vs.Names {
+						if p.TypesInfo.Defs[nm] == v && i < len(vs.Values) {
+							return vs.Values[i], p
+						}
+					}
+				}
+			}
+		}
+	}
+	return nil, nil
 }
 
 func (in *Interp) binary(st *State, x *ast.BinaryExpr) Val {
